@@ -15,7 +15,9 @@ VKEYS = ["x", "y"]
 VVALS = ["1", "2", "3"]
 EMBEDS = [("<", ">"), ("(", ")"), ("", "!"), ("", "")]
 SEPS = [";", "", ", ", "\n"]
-NAMES = ["a", "b", "B", "ab", "a1", "c", "_", "b0", "aB"]
+NAMES = ["a", "b", "B", "ab", "a1", "c", "_", "b0", "aB"]        # resolver identifiers (dict keys), ordered by code point
+PNAMES = [None, "n", "m", "n", "zz", "A"]                          # `name` of the pipelines: unrelated to the identifiers, collide
+FILES = ["p1.yml", "a.yml", "B.yml", "z9.yml"]
 PRIOS = [-1, 0, 0, 0, 5, 5, 10, 100]
 FMTS = ["default", "test", "state"]
 
@@ -75,6 +77,13 @@ def number(case):
             if nf < MAXFIN:
                 keep.append(f); nf += 1
         d["fin"] = keep
+    for ident, ent in case["tab"]:
+        for d in ([] if ent[0] == "obj" else ent[1] if ent[0] == "seq" else [ent[1]]):
+            keep = []
+            for f in d["fin"]:
+                if nf < MAXFIN:
+                    keep.append(f); nf += 1
+            d["fin"] = keep
     u = 1
     for d in case["defs"] + [case["bk"], case["of"]]:
         for part in ("items", "post", "fin"):
@@ -84,10 +93,47 @@ def number(case):
     return case
 
 
-def g_base(rng, n=None, tpl=0.25):
+def g_base(rng, n=None, tpl=0.25, heavy=False):
     n = n or rng.choice([1, 2, 2, 3, 3, 3, 4, 4, 5])
-    names = rng.sample(NAMES, n)
-    defs = [g_def(rng, names[i], tpl=tpl) for i in range(n)]
+    idents = rng.sample(NAMES, n)
+    mode = rng.random()
+    if mode < 0.25:                       # identifier == pipeline name (from_pipeline_list style)
+        pnames = list(idents)
+    elif mode < 0.5:                      # names in the opposite order of the identifiers
+        order = sorted(range(n), key=lambda i: idents[i])
+        pn = sorted(rng.sample(["n1", "n2", "n3", "n4", "n5", "n6"], n), reverse=True)
+        pnames = [None] * n
+        for r, i in enumerate(order):
+            pnames[i] = pn[r]
+    else:                                 # colliding / missing names
+        pnames = [rng.choice(PNAMES) for _ in range(n)]
+    defs = [g_def(rng, pnames[i], tpl=tpl) for i in range(n)]
+    if rng.random() < 0.5:                # many equal priorities
+        p0 = rng.choice(PRIOS)
+        for d in defs:
+            if rng.random() < 0.7:
+                d["prio"] = p0
+    if heavy:                             # stage order: several post-processing items and finalizers per pipeline
+        for d in defs:
+            while len(d["post"]) < 2:
+                d["post"].append(g_post(rng, 0.1))
+            if rng.random() < 0.6:
+                d["fin"].append(g_fin(rng))
+    tab = [[idents[i], ["obj", i]] for i in range(n)]
+    extra = [x for x in NAMES if x not in idents]
+    rng.shuffle(extra)
+    total = n
+    for _ in range(rng.choice([0, 0, 1, 1, 2])):         # callables: a fresh pipeline at every resolution
+        if total < 5 and extra:
+            d = g_def(rng, rng.choice(PNAMES), rich=rng.random() < 0.5, tpl=0)
+            d["prio"] = rng.choice([defs[0]["prio"], rng.choice(PRIOS)])
+            tab.append([extra.pop(), ["call", d]]); total += 1
+    for fn in rng.sample(FILES, rng.choice([0, 0, 1, 1, 2])):   # YAML files found by path; `name:` differs from the file name
+        if total < 5:
+            d = g_def(rng, rng.choice(PNAMES), rich=rng.random() < 0.5, tpl=0)
+            d["prio"] = rng.choice([defs[0]["prio"], rng.choice(PRIOS)])
+            tab.append([fn, ["file", d]]); total += 1
+    rng.shuffle(tab)
     # make (priority) ties and state dependencies likely
     if n >= 2 and rng.random() < 0.5:
         defs[1]["prio"] = defs[0]["prio"]
@@ -97,7 +143,7 @@ def g_base(rng, n=None, tpl=0.25):
     of = g_def(rng, None, rich=False, tpl=0) if rng.random() < 0.4 else {"items": [], "post": [], "fin": [], "vars": [], "prio": 0, "name": None}
     nr = rng.choice([1, 1, 2])
     rules = [{"f": rng.choice(FIELDS), "v": rng.choice(VALUES), "two": rng.random() < 0.25} for _ in range(nr)]
-    return {"fmt": rng.choice(FMTS), "defs": defs, "bk": bk, "of": of, "rules": rules, "prog": []}
+    return {"fmt": rng.choice(FMTS), "defs": defs, "tab": tab, "bk": bk, "of": of, "rules": rules, "prog": []}
 
 
 def bracketings(seq):
@@ -131,7 +177,8 @@ def later_op(rng, case, nregs, s):
     if r < 0.3:
         return ["tree", [rng.randrange(n), rng.randrange(nregs)]]
     if r < 0.45:
-        return ["resolve", rng.sample([d["name"] for d in case["defs"]], rng.randint(1, n))]
+        sp = [e[0] for e in case["tab"]]
+        return ["resolve", rng.sample(sp, rng.randint(1, len(sp)))]
     if r < 0.6:
         return ["init", True, s]
     if r < 0.7:
@@ -139,6 +186,29 @@ def later_op(rng, case, nregs, s):
     if r < 0.85:
         return ["convert", True, rng.randrange(nregs)]
     return ["tree", [s, rng.randrange(n)]]
+
+
+def max_fins(c):
+    """largest number of finalizers any initialised pipeline of the history has (callables / files named
+    several times contribute once per instantiation)"""
+    fins = [len(d["fin"]) for d in c["defs"]]
+    ent = {}
+    for k, e in [x for x in c["tab"] if x[1][0] == "file"] + [x for x in c["tab"] if x[1][0] != "file"]:
+        ent[k] = fins[e[1]] if e[0] == "obj" else max(len(d["fin"]) for d in e[1]) if e[0] == "seq" else len(e[1]["fin"])
+    cls = len(c["bk"]["fin"]) + len(c["of"]["fin"])
+    worst = 0
+
+    def tf(t):
+        return fins[t] if isinstance(t, int) else tf(t[0]) + tf(t[1])
+    try:
+        for o in c["prog"]:
+            if o[0] == "tree": fins.append(tf(o[1]))
+            elif o[0] == "resolve": fins.append(sum(ent[s] for s in o[1]))
+            elif o[0] == "sum": fins.append(sum(fins[i] for i in o[1]))
+            elif o[0] in ("init", "convert"): worst = max(worst, cls + (fins[o[2]] if o[2] is not None else 0))
+    except (KeyError, IndexError):
+        pass
+    return worst
 
 
 def with_prog(base, prog):
@@ -150,20 +220,29 @@ def with_prog(base, prog):
 def gen_hist(tier, rng):
     quick = tier == "quick"
     out = []
-    nbase = 40 if quick else 220
+    nbase = 30 if quick else 200
     for bi in range(nbase):
-        base = number(g_base(rng, tpl=0.12))
+        base = number(g_base(rng, tpl=0.12, heavy=(bi % 5 == 4)))
         n = len(base["defs"])
-        names = [d["name"] for d in base["defs"]]
+        specs = [e[0] for e in base["tab"]]
+        m = len(specs)
+        oid = {e[1][1]: e[0] for e in base["tab"] if e[1][0] == "obj"}      # operand index -> identifier
+        fresh = [e[0] for e in base["tab"] if e[1][0] != "obj"]
         # --- every permutation of the resolver's argument list (<= 120)
-        perms = list(itertools.permutations(names))
+        perms = list(itertools.permutations(specs))
         if quick and len(perms) > 24:
             perms = rng.sample(perms, 24)
         for pi, perm in enumerate(perms):
             pre = preuse(rng, n, 0.0 if pi % 3 == 0 else 0.4)
             k = n + sum(1 for o in pre if o[0] == "tree")
             out.append(with_prog(base, pre + [["resolve", list(perm)], ["convert", False, k]]))
-        # --- every bracketing of + (<= 14), in argument order and in one more order
+        # --- permutations of sub-lists of the table
+        if m >= 3:
+            for _ in range(2 if quick else 4):
+                sub = rng.sample(specs, rng.randint(2, m - 1))
+                for perm in (list(itertools.permutations(sub)) if len(sub) <= 3 else [rng.sample(sub, len(sub)) for _ in range(6)]):
+                    out.append(with_prog(base, [["resolve", list(perm)], ["convert", False, n]]))
+        # --- every bracketing of + (<= 14), in argument order and in one more order; sum() of the same list
         orders = [list(range(n))]
         if n >= 2:
             orders.append(rng.sample(range(n), n))
@@ -178,34 +257,71 @@ def gen_hist(tier, rng):
                     out.append(with_prog(base, pre + [["convert", False, t]]))
                 else:
                     out.append(with_prog(base, pre + [["tree", t], ["convert", False, k]]))
+            pre = preuse(rng, n, 0.3 * oi)
+            k = n + sum(1 for o in pre if o[0] == "tree")
+            out.append(with_prog(base, pre + [["sum", order], ["convert", False, k]]))
         # --- conversion without re-initialisation, after somebody else touched the operands
         for _ in range(3 if quick else 8):
-            comp = ["resolve", rng.sample(names, n)] if rng.random() < 0.5 else ["tree", rng.choice(bracketings(rng.sample(range(n), n)))]
+            comp = ["resolve", rng.sample(specs, m)] if rng.random() < 0.5 else ["tree", rng.choice(bracketings(rng.sample(range(n), n)))]
             prog = [comp, ["init", False, n]]
             nregs = n + 1
             for _ in range(rng.choice([0, 1, 1, 2])):
                 o = later_op(rng, base, nregs, n)
                 prog.append(o)
-                if o[0] in ("tree", "resolve"):
+                if o[0] in ("tree", "resolve", "sum"):
                     nregs += 1
             prog.append(["run", False])
             out.append(with_prog(base, prog))
         # --- resolving the same pipeline objects more than once
-        if n >= 2:
-            p1, p2 = rng.sample(names, n), rng.sample(names, n)
+        if m >= 2:
+            p1, p2 = rng.sample(specs, m), rng.sample(specs, m)
             out.append(with_prog(base, [["resolve", p1], ["resolve", p2], ["convert", False, n + 1]]))
             out.append(with_prog(base, [["resolve", p1], ["init", False, n], ["resolve", p2], ["run", False]]))
             out.append(with_prog(base, [["resolve", p1], ["convert", False, n], ["resolve", p2], ["convert", False, n]]))
-            sub = rng.sample(names, rng.randint(1, n))
+            sub = rng.sample(specs, rng.randint(1, m))
             out.append(with_prog(base, [["resolve", p1], ["resolve", sub], ["tree", [n, n + 1]], ["convert", False, n + 2]]))
-        # --- hostile: the same object twice, unknown names, nothing at all
+        # --- the same callable / file named twice: two fresh pipelines with equal (priority, spec)
+        for fsp in fresh[:2]:
+            out.append(with_prog(base, [["resolve", [fsp, fsp]], ["convert", False, n]]))
+            out.append(with_prog(base, [["resolve", [fsp] + rng.sample(specs, m) + [fsp]], ["convert", False, n]]))
+            out.append(with_prog(base, [["resolve", [fsp]], ["resolve", [fsp]], ["tree", [n, n + 1]], ["convert", False, n + 2]]))
+        # --- ties: a callable with a memory named twice - equal (priority, spec), different contents: stable order
+        if bi % 2 == 0:
+            seqb = copy.deepcopy(base)
+            seqb["tab"] = [e for e in seqb["tab"] if e[1][0] == "obj"]
+            pr = rng.choice(PRIOS + [seqb["defs"][0]["prio"]] * 3)
+            ds = []
+            for k in range(3):
+                d = g_def(rng, rng.choice(PNAMES), rich=False, tpl=0)
+                d["fin"] = []
+                d["items"].insert(0, {"id": "t%d" % k, "kind": ["add_cond", "t", "c%d" % k], "cond": None})
+                d["prio"] = pr
+                ds.append(d)
+            seqb["tab"].append(["sq", ["seq", ds]])
+            osp = [e[0] for e in seqb["tab"] if e[1][0] == "obj"]
+            out.append(with_prog(seqb, [["resolve", ["sq", "sq"]], ["convert", False, n]]))
+            out.append(with_prog(seqb, [["resolve", ["sq", "sq", "sq"]], ["convert", False, n]]))
+            for _ in range(3):
+                mix = osp + ["sq", "sq"]
+                rng.shuffle(mix)
+                out.append(with_prog(seqb, [["resolve", mix], ["convert", False, n]]))
+            out.append(with_prog(seqb, [["resolve", ["sq"]], ["resolve", ["sq", "sq"]], ["tree", [n + 1, n]], ["convert", False, n + 2]]))
+        # --- hostile: the same object twice (also under two identifiers), unknown names, nothing at all
         h = rng.randrange(n)
+        alias = copy.deepcopy(base)
+        alias["tab"].append(["zz2", ["obj", h]])
+        out.append(with_prog(alias, [["resolve", [oid[h], "zz2"]], ["convert", False, n]]))
+        out.append(with_prog(alias, [["resolve", rng.sample(specs + ["zz2"], m + 1)], ["convert", False, n]]))
+        out.append(with_prog(alias, [["resolve", ["zz2"]], ["convert", False, n]]))
         out.append(with_prog(base, [["tree", [h, h]], ["convert", False, n]]))
-        out.append(with_prog(base, [["resolve", [names[h], names[h]]], ["convert", False, n]]))
-        out.append(with_prog(base, [["resolve", names + ["nope"]], ["convert", False, n]]))
+        out.append(with_prog(base, [["sum", [h, h]], ["convert", False, n]]))
+        out.append(with_prog(base, [["sum", [h]], ["convert", False, n], ["convert", True, h]]))
+        out.append(with_prog(base, [["resolve", [oid[h], oid[h]]], ["convert", False, n]]))
+        out.append(with_prog(base, [["resolve", specs + ["nope"]], ["convert", False, n]]))
+        out.append(with_prog(base, [["resolve", [base["defs"][h]["name"] or "None"]], ["convert", False, n]]))   # the pipeline's name is not its identifier
         out.append(with_prog(base, [["resolve", []], ["convert", False, n]]))
         out.append(with_prog(base, [["convert", False, None]]))
-        out.append(with_prog(base, [["resolve", [names[h]]], ["convert", False, n], ["convert", True, h]]))
+        out.append(with_prog(base, [["resolve", [oid[h]]], ["convert", False, n], ["convert", True, h]]))
         if n >= 2:
             out.append(with_prog(base, [["tree", [0, 1]], ["tree", [n, 0]], ["convert", False, n + 1]]))
             out.append(with_prog(base, [["tree", [0, 1]], ["tree", [1, 0]], ["convert", False, n + 1]]))
@@ -214,16 +330,19 @@ def gen_hist(tier, rng):
     for _ in range(250 if quick else 3000):
         base = number(g_base(rng, tpl=0.2))
         n = len(base["defs"])
-        names = [d["name"] for d in base["defs"]]
+        specs = [e[0] for e in base["tab"]]
+        m = len(specs)
         prog, nregs, inited = [], n, set()
         for _ in range(rng.randint(1, 6)):
             r = rng.random()
-            if r < 0.3:
+            if r < 0.25:
                 t = rng.choice(bracketings([rng.randrange(nregs) for _ in range(rng.randint(2, 4))]))
                 prog.append(["tree", t]); nregs += 1
+            elif r < 0.3:
+                prog.append(["sum", [rng.randrange(nregs) for _ in range(rng.randint(1, 3))]]); nregs += 1
             elif r < 0.5:
-                prog.append(["resolve", [rng.choice(names) for _ in range(rng.randint(0, 3))] if rng.random() < 0.2
-                             else rng.sample(names, rng.randint(1, n))]); nregs += 1
+                prog.append(["resolve", [rng.choice(specs) for _ in range(rng.randint(0, 3))] if rng.random() < 0.2
+                             else rng.sample(specs, rng.randint(1, m))]); nregs += 1
             elif r < 0.7:
                 b = rng.random() < 0.5
                 prog.append(["init", b, rng.choice([None] + list(range(nregs)))]); inited.add(b)
@@ -237,7 +356,8 @@ def gen_hist(tier, rng):
         else:
             prog.append(["run", rng.choice(sorted(inited))])
         out.append(with_prog(base, prog))
-    return out
+    # every concat finalizer after the first multiplies the output length: keep histories whose pipelines stay small
+    return [c for c in out if max_fins(c) <= MAXFIN + 1]
 
 
 # ------------------------------------------------------------------------------------------ Coq terms
@@ -248,19 +368,19 @@ def c_cond(c):
 def c_item(i):
     k = i["kind"]
     kk = {"set_state": "KSetState", "suffix": "KSuffix", "add_cond": "KAddCond"}[k[0]]
-    return (f"{{| i_uid := {i['uid']}; i_id := {cstr(i['id'])}; i_kind := {kk} {' '.join(cstr(x) for x in k[1:])}; "
+    return (f"{{| i_uid := {i.get('uid', 0)}; i_id := {cstr(i['id'])}; i_kind := {kk} {' '.join(cstr(x) for x in k[1:])}; "
             f"i_cond := {c_cond(i['cond'])} |}}")
 
 
 def c_post(q):
     k = q["kind"]
     kk = {"embed": "PEmbed", "tpl_state": "PTplState", "tpl_var": "PTplVar"}[k[0]]
-    return (f"{{| q_uid := {q['uid']}; q_id := {cstr(q['id'])}; q_kind := {kk} {' '.join(cstr(x) for x in k[1:])}; "
+    return (f"{{| q_uid := {q.get('uid', 0)}; q_id := {cstr(q['id'])}; q_kind := {kk} {' '.join(cstr(x) for x in k[1:])}; "
             f"q_cond := {c_cond(q['cond'])} |}}")
 
 
 def c_fin(f):
-    return f"{{| f_uid := {f['uid']}; f_sep := {cstr(f['sep'])}; f_pre := {cstr(f['pre'])}; f_suf := {cstr(f['suf'])} |}}"
+    return f"{{| f_uid := {f.get('uid', 0)}; f_sep := {cstr(f['sep'])}; f_pre := {cstr(f['pre'])}; f_suf := {cstr(f['suf'])} |}}"
 
 
 def c_dict(kvs):
@@ -284,6 +404,7 @@ def c_u(u):
 def c_op(o):
     if o[0] == "tree": return f"OpTree {c_tree(o[1])}"
     if o[0] == "resolve": return f"OpResolve {clist(cstr(s) for s in o[1])}"
+    if o[0] == "sum": return f"OpSum {clist(cnat(i) for i in o[1])}"
     if o[0] == "init": return f"OpInit {cbool(o[1])} {c_u(o[2])}"
     if o[0] == "run": return f"OpRun {cbool(o[1])}"
     if o[0] == "convert": return f"OpConvert {cbool(o[1])} {c_u(o[2])}"
@@ -318,7 +439,14 @@ def c_fmt(f):
 
 def hist_to_coq(c, r):
     rules = clist(f"{{| r_field := {cstr(x['f'])}; r_value := {cstr(x['v'])}; r_two := {cbool(x['two'])} |}}" for x in c["rules"])
-    return (f"(({c_fmt(c['fmt'])}, {clist(c_def(d) for d in c['defs'])}, {c_def(c['bk'])}, {c_def(c['of'])}, "
+    # table order for the model: files are consulted only when the identifier is not in the dict (last entry of a key wins)
+    ents = [e for e in c["tab"] if e[1][0] == "file"] + [e for e in c["tab"] if e[1][0] != "file"]
+    def c_ent(e):
+        if e[0] == "obj": return "RObj " + cnat(e[1])
+        if e[0] == "seq": return "RSeq " + clist(c_def(d) for d in e[1])
+        return "RCall " + c_def(e[1])
+    tab = clist(f"({cstr(k)}, {c_ent(e)})" for k, e in ents)
+    return (f"(({c_fmt(c['fmt'])}, {clist(c_def(d) for d in c['defs'])}, {tab}, {c_def(c['bk'])}, {c_def(c['of'])}, "
             f"{rules}, {clist(c_op(o) for o in c['prog'])}, {c_result(r)}) : hist_case)")
 
 
@@ -336,10 +464,10 @@ def stale_runs(c):
     n = len(c["defs"])
     leaves = [({i} if observable(c["defs"][i]) else set()) for i in range(n)]
     cls = ({"bk"} if observable(c["bk"]) else set()) | ({"of"} if observable(c["of"]) else set())
-    name2i = {}
-    for i, d in enumerate(c["defs"]):
-        if d["name"] is not None:
-            name2i[d["name"]] = i
+    ident = {}          # identifier -> operand index (None: callable / file, a fresh pipeline every time)
+    for k, e in [x for x in c["tab"] if x[1][0] == "file"] + [x for x in c["tab"] if x[1][0] != "file"]:
+        # callable / file / callable with memory: fresh pipelines, i.e. fresh item objects at every resolution
+        ident[k] = e[1] if e[0] == "obj" else ("fresh", any(observable(d) for d in (e[1] if e[0] == "seq" else [e[1]])))
     last, stale = {}, {}
 
     def tl(t):
@@ -358,8 +486,18 @@ def stale_runs(c):
                 leaves.append(ls)
             elif o[0] == "resolve":
                 ls = set()
-                for s in o[1]:
-                    ls |= leaves[name2i[s]]
+                for j, s in enumerate(o[1]):
+                    if isinstance(ident[s], int):
+                        ls |= leaves[ident[s]]
+                    elif ident[s][1]:
+                        ls.add(("inst", len(leaves), j))
+                if len(o[1]) >= 2:
+                    touch(ls)
+                leaves.append(ls)
+            elif o[0] == "sum":
+                ls = set()
+                for i in o[1]:
+                    ls |= leaves[i]
                 if len(o[1]) >= 2:
                     touch(ls)
                 leaves.append(ls)
@@ -410,20 +548,26 @@ PROPERTY = Property(
     pid="C14", props_file="Props/C14.v",
     suites=[Suite("hist", gen_hist, "run_hist", REQ, "judge_hist", hist_to_coq, known=known_hist,
                   mutate=mutate_hist, stratum=stratum, shard=150)],
-    rule="histories of pipeline API calls over 1..5 operand pipelines (priorities incl. ties, names ordered by code point, "
-         "items set_state/field_name_suffix/add_condition with optional processing_state rule condition, post-processing embed / "
-         "simple_template reading pipeline.state or pipeline.vars, concat finalizers, vars) plus the backend's own and output-format "
-         "pipeline: every permutation of the resolver argument list (all 120 for 5 pipelines in the thorough tier, 24 sampled in quick), "
-         "every bracketing of + (<= 14) in two operand orders, operands fresh or used once (earlier conversion on another backend instance / "
-         "earlier sum), resolving the same objects twice, conversions without re-initialisation after a later addition (D18 class), "
-         "p + p, duplicate/unknown resolver names, empty lists, random histories of <= 7 calls; 1-2 rules, one- and two-condition rules, "
-         "formats default/test/state. Observed: Backend.convert() or convert_rule()+finalize() output, per-rule pipeline.applied and state, "
-         "applied_ids, vars. non-trivial = the history contains a sum/resolve of >= 2 pipelines and >= 2 pipelines are non-empty; "
-         "distinct by case hash",
+    rule="histories of pipeline API calls over 1..5 operand pipelines (priorities incl. many ties; `name` of the pipelines unrelated to the "
+         "resolver identifiers: equal, reversed order, colliding, missing), resolver tables built from dicts: identifier -> registered object | "
+         "callable | callable with a memory (ties with different contents), plus YAML files found by path whose name: differs from the file name, "
+         "aliases (one object under two identifiers); items set_state/field_name_suffix/add_condition with optional processing_state rule "
+         "condition, post-processing embed / simple_template reading pipeline.state or pipeline.vars, concat finalizers, vars; the backend's own "
+         "and output-format pipeline: every permutation of the resolver argument list over all table entries (all 120 for 5 entries in the "
+         "thorough tier, 24 sampled in quick) and of sub-lists, every bracketing of + (<= 14) in two operand orders and sum() of the same lists, "
+         "operands fresh or used once (earlier conversion on another backend instance / earlier sum), resolving the same objects / callables / "
+         "files twice, conversions without re-initialisation after a later addition (D18 class), p + p, sum([p, p]), duplicate/unknown resolver "
+         "names, the pipeline's name used as spec, empty lists, stage-heavy pipelines (>= 2 post-processing items each, several finalizers), "
+         "random histories of <= 7 calls; 1-2 rules, one- and two-condition rules, formats default/test/state. Observed: Backend.convert() or "
+         "convert_rule()+finalize() output, per-rule pipeline.applied and state, applied_ids, vars. non-trivial = the history contains a "
+         "sum/resolve of >= 2 pipelines and >= 2 pipelines/definitions are non-empty; distinct by case hash",
     assumptions=["conversion of the restricted rule shape ({field: value} AND-ed with added conditions) by the verification backend "
                  "(TextQueryTestBackend with in-expressions switched off) is modelled as text (query_of), validated by the correspondence only",
                  "item semantics of set_state, field_name_suffix, add_condition, embed, simple_template, concat and the processing_state "
                  "rule condition are modelled (a_item_step/a_post_step/fin_step), validated by the correspondence only; identifiers are non-empty",
-                 "not modelled: nested transformations/finalizers (own nested pipelines), Jinja templates, resolver entries that are callables, "
-                 "file or directory paths, allowed_backends/target check, correlation rules, backend_options, field-name tracking state"],
+                 "callables / YAML files / callables with a memory are modelled (fresh objects per resolution, Model.Pipeline.minst_all) and checked by the "
+                 "correspondence; theorems C14_resolver_perm/_concat/_history_partial are stated for tables of registered objects, "
+                 "C14_resolver_entries_perm/_order for all tables; a callable with a memory is modelled with the history-wide instantiation counter "
+                 "(generator: it is then the only callable/file of the table)",
+                 "not modelled: nested transformations/finalizers (own nested pipelines), Jinja templates, directory specs, allowed_backends/target check, correlation rules, backend_options, field-name tracking state"],
 )
